@@ -69,7 +69,9 @@ Inductive pv : Type :=
 | VIpcSchema (i : N)             (* bytes: schema.serialize() *)
 | VIpcBatch (i : N)              (* bytes: IPC stream holding the batch *)
 | VIpcRow (r : list (N * pv))    (* bytes: IPC stream holding a one-row batch with these columns *)
-| VTagged (tag : N) (payload : pv).   (* bytes: union marker + uint16-LE tag + payload *)
+| VTagged (tag : N) (payload : pv)    (* bytes: union marker + uint16-LE tag + payload *)
+| VPacked (r : list (N * pv))    (* bytes: msgpack map of a row dict (symbolic, used by sym_pack only) *)
+| VPrefixed (b : N) (payload : pv).   (* bytes: one byte followed by payload *)
 
 Inductive err := ETypeError | EValueError | EKeyError | EOverflow | EUnicode | EArrow | EIPC | ERuntime.
 Inductive res (A : Type) : Type := Ok (a : A) | Err (e : err).
@@ -150,7 +152,7 @@ Fixpoint assoc_scalar {A : Type} (l : list (scalar * A)) (s : scalar) : option A
 
 (* ------------------------------------------------------------------ helpers on values *)
 Definition is_bytes (v : pv) : bool :=
-  match v with VBytes _ | VIpcSchema _ | VIpcBatch _ | VIpcRow _ | VTagged _ _ => true | _ => false end.
+  match v with VBytes _ | VIpcSchema _ | VIpcBatch _ | VIpcRow _ | VTagged _ _ | VPacked _ | VPrefixed _ _ => true | _ => false end.
 Definition bytes_empty (v : pv) : bool := match v with VBytes [] => true | _ => false end.
 Definition is_obj (v : pv) : bool := match v with VObj _ _ => true | _ => false end.
 Definition is_none (v : pv) : bool := match v with VNone => true | _ => false end.
@@ -271,30 +273,62 @@ Section Model.
   (* ---------------------------------------------------------------- serialization *)
   Variable ce : cenv.
 
+  Section SerHelpers.
+    Variables sT sF : pv -> res pv.     (* v.serialize_to_bytes() and _convert_value_for_serialization(v) on sub-values *)
+    (* _to_row_dict: declared fields against the instance's attribute values, by position *)
+    Fixpoint to_row_with (fs : list fdecl) (vals : list (N * pv)) {struct vals} : res (list (N * pv)) :=
+      match vals with
+      | [] => Ok []
+      | (_, x) :: vq =>
+          match fs with
+          | [] => Err ETypeError
+          | (n, k, _, _) :: fq =>
+              match k with
+              | KTransient => to_row_with fq vq
+              | KBinary => y <- (if is_obj x then sT x else sF x) ;; q' <- to_row_with fq vq ;; Ok ((n, y) :: q')
+              | KPlain => y <- sF x ;; q' <- to_row_with fq vq ;; Ok ((n, y) :: q')
+              end
+          end
+      end.
+    Fixpoint ser_pairs (l : list (pv * pv)) : res (list pv) :=
+      match l with
+      | [] => Ok []
+      | (k, x) :: q => k' <- sF k ;; x' <- sF x ;; q' <- ser_pairs q ;; Ok (VTuple [k'; x'] :: q')
+      end.
+
+    (* one arm of the cascade; `row` = (type(v)'s fields, v._to_row_dict()) when v is a dataclass instance *)
+    Variable row : option (list fdecl * res (list (N * pv))).
+    Variable v : pv.
+    Definition try_s (b : sbranch) : option (res pv) :=
+      match b with
+      | SbScalar => match v with
+                    | VStr _ | VInt _ | VFloat _ | VBool _ | VBytes _ | VIpcSchema _ | VIpcBatch _ | VIpcRow _
+                    | VTagged _ _ | VPacked _ | VPrefixed _ _ => Some (Ok v)
+                    | _ => None end
+      | SbSchema => match v with VSchema i => Some (Ok (VIpcSchema i)) | _ => None end
+      | SbBatch => match v with VBatch i => Some (Ok (VIpcBatch i)) | _ => None end
+      | SbData => match row with Some (_, r) => Some (r' <- r ;; Ok (VRow r')) | None => None end
+      | SbBytesSer => match row with Some (fs, r) => Some (r' <- r ;; encode_row fs r') | None => None end
+      | SbEnum => match v with VEnum _ name => Some (Ok (VStr name)) | _ => None end
+      | SbSet => match v with VSet l => Some (l' <- mapM sF l ;; Ok (VList l')) | _ => None end
+      | SbDict => match v with VDict l => Some (l' <- ser_pairs l ;; Ok (VList l')) | _ => None end
+      | SbList => match v with VList l => Some (l' <- mapM sF l ;; Ok (VList l')) | _ => None end
+      end.
+    Fixpoint run_s (ord : list sbranch) : res pv :=
+      match ord with
+      | [] => Ok v
+      | b :: q => match try_s b with Some r => r | None => run_s q end
+      end.
+  End SerHelpers.
+
   (* ser false v = _convert_value_for_serialization(v) ; ser true v = v.serialize_to_bytes() *)
   Fixpoint ser (m : bool) (v : pv) {struct v} : res pv :=
-    (* type(v)'s plan and v._to_row_dict() when v is a dataclass instance *)
     let row : option (list fdecl * res (list (N * pv))) :=
       match v with
       | VObj c vals =>
           match lookup_cls ce c with
           | None => None
-          | Some fs =>
-              Some (fs,
-                (fix to_row (fs : list fdecl) (vals : list (N * pv)) {struct vals} : res (list (N * pv)) :=
-                   match vals with
-                   | [] => Ok []
-                   | (_, x) :: vq =>
-                       match fs with
-                       | [] => Err ETypeError
-                       | (n, k, _, _) :: fq =>
-                           match k with
-                           | KTransient => to_row fq vq
-                           | KBinary => y <- (if is_obj x then ser true x else ser false x) ;; q' <- to_row fq vq ;; Ok ((n, y) :: q')
-                           | KPlain => y <- ser false x ;; q' <- to_row fq vq ;; Ok ((n, y) :: q')
-                           end
-                       end
-                   end) fs vals)
+          | Some fs => Some (fs, to_row_with (ser true) (ser false) fs vals)
           end
       | _ => None
       end in
@@ -306,34 +340,7 @@ Section Model.
     else
       match v with
       | VNone => Ok VNone
-      | _ =>
-        (fix run (ord : list sbranch) : res pv :=
-           match ord with
-           | [] => Ok v
-           | b :: ord' =>
-               let next := run ord' in
-               match b with
-               | SbScalar => match v with
-                             | VStr _ | VInt _ | VFloat _ | VBool _ | VBytes _ | VIpcSchema _ | VIpcBatch _ | VIpcRow _ | VTagged _ _ => Ok v
-                             | _ => next end
-               | SbSchema => match v with VSchema i => Ok (VIpcSchema i) | _ => next end
-               | SbBatch => match v with VBatch i => Ok (VIpcBatch i) | _ => next end
-               | SbData => match row with Some (_, r) => r' <- r ;; Ok (VRow r') | None => next end
-               | SbBytesSer => match row with Some (fs, r) => r' <- r ;; encode_row fs r' | None => next end
-               | SbEnum => match v with VEnum _ name => Ok (VStr name) | _ => next end
-               | SbSet => match v with VSet l => l' <- mapM (ser false) l ;; Ok (VList l') | _ => next end
-               | SbDict => match v with
-                           | VDict l =>
-                               l' <- (fix go (l : list (pv * pv)) : res (list pv) :=
-                                        match l with
-                                        | [] => Ok []
-                                        | (k, x) :: q => k' <- ser false k ;; x' <- ser false x ;; q' <- go q ;; Ok (VTuple [k'; x'] :: q')
-                                        end) l ;;
-                               Ok (VList l')
-                           | _ => next end
-               | SbList => match v with VList l => l' <- mapM (ser false) l ;; Ok (VList l') | _ => next end
-               end
-           end) (c_sord cf)
+      | _ => run_s (ser false) row v (c_sord cf)
       end.
 
   Definition serialize_to_bytes (x : pv) : res pv := ser true x.
@@ -478,8 +485,8 @@ Section Model.
   (* ---------------------------------------------------------------- compact codec *)
   Section Compact.
     Variable have_msgpack : bool.
-    Variable pack : list (N * pv) -> option (list N).     (* msgpack.packb(row, use_bin_type=True); None = TypeError / ValueError *)
-    Variable unpack : list N -> option pv.                (* msgpack.unpackb(data, raw=False); None = any exception *)
+    Variable pack : list (N * pv) -> option pv.     (* msgpack.packb(row, use_bin_type=True) as a bytes value; None = TypeError / ValueError *)
+    Variable unpack : pv -> option pv.              (* msgpack.unpackb(data, raw=False); None = any exception *)
 
     Definition unopt (t : ty) : ty := match t with TOpt t' => t' | _ => t end.
 
@@ -507,7 +514,7 @@ Section Model.
     Definition type_of (v : pv) : option scalar :=     (* type(v) when it is one of the five base types *)
       match v with
       | VStr _ => Some SStr | VInt _ => Some SInt | VFloat _ => Some SFloat | VBool _ => Some SBool
-      | VBytes _ | VIpcSchema _ | VIpcBatch _ | VIpcRow _ | VTagged _ _ => Some SBytes
+      | VBytes _ | VIpcSchema _ | VIpcBatch _ | VIpcRow _ | VTagged _ _ | VPacked _ | VPrefixed _ _ => Some SBytes
       | _ => None
       end.
     Definition isinstance_rt (v : pv) (rt : list scalar) : bool :=
@@ -531,7 +538,7 @@ Section Model.
                       if forallb (fun p => let v := row_get (fst (fst (fst p))) row in
                                            is_none v || isinstance_rt v (snd (fst p))) plan
                       then match pack row with
-                           | Some b => Ok (Some (VBytes (c_marker cf :: b)))
+                           | Some b => Ok (Some (VPrefixed (c_marker cf) b))
                            | None => Ok None
                            end
                       else Ok None
@@ -559,6 +566,15 @@ Section Model.
           Ok (o :: q')
       end.
 
+    (* data[:1], data[1:] *)
+    Definition split_first (v : pv) : option (N * pv) :=
+      match v with
+      | VBytes (b :: r) => Some (b, VBytes r)
+      | VPrefixed b p => Some (b, p)
+      | VIpcSchema _ | VIpcBatch _ | VIpcRow _ => Some (255, VBytes [])   (* Arrow IPC continuation marker; the rest is not modelled *)
+      | _ => None
+      end.
+
     (* deserialize_compact(cls, data) *)
     Definition de_compact (t : ty) (data : pv) : res pv :=
       match t with
@@ -566,15 +582,15 @@ Section Model.
           match compact_plan fs with
           | None => Err EIPC
           | Some _ =>
-              match data with
-              | VBytes (m :: b) =>
+              match split_first data with
+              | Some (m, rest) =>
                   if m =? c_marker cf then
-                    match unpack b with
+                    match unpack rest with
                     | Some (VRow row) => kw <- compact_kwargs fs row ;; construct c fs kw
                     | _ => Err EIPC
                     end
                   else Err EIPC
-              | _ => Err EIPC
+              | None => Err EIPC
               end
           end
       | _ => Err ETypeError
@@ -583,10 +599,8 @@ Section Model.
     (* ---------------------------------------------------------------- stream-state bytes *)
     Definition first_byte (v : pv) : option N :=
       match v with
-      | VBytes (b :: _) => Some b
-      | VIpcSchema _ | VIpcBatch _ | VIpcRow _ => Some 255     (* Arrow IPC continuation marker *)
       | VTagged _ _ => Some (c_union_marker cf)
-      | _ => None
+      | _ => option_map fst (split_first v)
       end.
 
     Fixpoint index_of (c : N) (l : list N) (i : N) : option N :=
@@ -630,6 +644,136 @@ Section Model.
       end.
   End Compact.
 End Model.
+
+(* ------------------------------------------------------------------ the premises of the theorems, executable *)
+Definition lit_is (d : lit) (x : pv) : bool :=       (* x is the value pv_of_lit d *)
+  match d, x with
+  | LNone, VNone => true
+  | LInt z, VInt z' => Z.eqb z z'
+  | LStr s, VStr s' | LBytes s, VBytes s' => if list_eq_dec N.eq_dec s s' then true else false
+  | LBool b, VBool b' => Bool.eqb b b'
+  | LFloat x, VFloat x' => x =? x'
+  | LEmptyList, VList [] | LEmptySet, VSet [] | LEmptyDict, VDict [] => true
+  | _, _ => false
+  end.
+Definition lit_eqb (a b : lit) : bool := lit_is a (pv_of_lit b).
+Definition optlit_eqb (a b : option lit) : bool :=
+  match a, b with None, None => true | Some x, Some y => lit_eqb x y | _, _ => false end.
+Definition fkind_eqb (a b : fkind) : bool :=
+  match a, b with KPlain, KPlain | KBinary, KBinary | KTransient, KTransient => true | _, _ => false end.
+Definition str_eqb (a b : list N) : bool := if list_eq_dec N.eq_dec a b then true else false.
+Definition optstr_eqb (a b : option (list N)) : bool :=
+  match a, b with None, None => true | Some x, Some y => str_eqb x y | _, _ => false end.
+Fixpoint members_eqb (a b : list (list N * option (list N))) : bool :=
+  match a, b with
+  | [], [] => true
+  | (n, v) :: r, (n', v') :: r' => str_eqb n n' && optstr_eqb v v' && members_eqb r r'
+  | _, _ => false
+  end.
+
+Fixpoint ty_eqb (a b : ty) {struct a} : bool :=
+  match a, b with
+  | TScalar s, TScalar s' => scalar_eqb s s'
+  | TEnum e ms, TEnum e' ms' => (e =? e') && members_eqb ms ms'
+  | TOpt x, TOpt y | TList x, TList y | TSet x, TSet y => ty_eqb x y
+  | TDict k v, TDict k' v' => ty_eqb k k' && ty_eqb v v'
+  | TData c fs, TData c' fs' =>
+      (c =? c')
+      && (fix go (fs fs' : list fdecl) : bool :=
+            match fs, fs' with
+            | [], [] => true
+            | (n, k, d, t) :: q, (n', k', d', t') :: q' =>
+                (n =? n') && fkind_eqb k k' && optlit_eqb d d' && ty_eqb t t' && go q q'
+            | _, _ => false
+            end) fs fs'
+  | TSchema, TSchema | TBatch, TBatch => true
+  | _, _ => false
+  end.
+
+Fixpoint nodupb (l : list N) : bool :=
+  match l with [] => true | x :: r => negb (existsb (N.eqb x) r) && nodupb r end.
+Fixpoint nodup_names (l : list (list N)) : bool :=
+  match l with [] => true | x :: r => negb (existsb (fun y => if list_eq_dec N.eq_dec x y then true else false) r) && nodup_names r end.
+Definition is_opt (t : ty) : bool := match t with TOpt _ => true | _ => false end.
+Definition is_data (t : ty) : bool := match t with TData _ _ => true | _ => false end.
+Definition is_some {A : Type} (o : option A) : bool := match o with Some _ => true | None => false end.
+
+(* the supported annotation grammar *)
+Fixpoint wfb (t : ty) : bool :=
+  match t with
+  | TScalar _ | TSchema | TBatch => true
+  | TEnum _ ms => nodup_names (map fst ms)
+  | TOpt t' => negb (is_opt t') && wfb t'
+  | TList t' | TSet t' => wfb t'
+  | TDict k v => negb (is_opt k) && wfb k && wfb v
+  | TData _ fs =>
+      nodupb (map f_name fs)
+      && (fix go (fs : list fdecl) : bool :=
+            match fs with
+            | [] => true
+            | (_, k, d, t) :: q =>
+                match k with
+                | KTransient => is_some d
+                | KBinary => is_data (unopt t) && wfb t
+                | KPlain => wfb t
+                end && go q
+            end) fs
+  end.
+
+(* every dataclass named by the annotation is registered under its class id with exactly this declaration *)
+Fixpoint cenv_okb (ce : cenv) (t : ty) : bool :=
+  match t with
+  | TOpt t' | TList t' | TSet t' => cenv_okb ce t'
+  | TDict k v => cenv_okb ce k && cenv_okb ce v
+  | TData c fs =>
+      match lookup_cls ce c with Some fs' => ty_eqb (TData c fs) (TData c fs') | None => false end
+      && (fix go (fs : list fdecl) : bool :=
+            match fs with
+            | [] => true
+            | (_, k, _, t) :: q => match k with KTransient => true | _ => cenv_okb ce t end && go q
+            end) fs
+  | _ => true
+  end.
+
+(* x is an instance of annotation t (exact types; ints in int64; strs encodable; set elements and dict keys
+   hashable; transient fields hold their default) *)
+Fixpoint instb (t : ty) (x : pv) {struct t} : bool :=
+  match t with
+  | TScalar SStr => match x with VStr s => forallb scalar_cp s | _ => false end
+  | TScalar SBytes => match x with VBytes _ => true | _ => false end
+  | TScalar SInt => match x with VInt z => in_i64 z | _ => false end
+  | TScalar SFloat => match x with VFloat _ => true | _ => false end
+  | TScalar SBool => match x with VBool _ => true | _ => false end
+  | TEnum e ms => match x with VEnum e' n => (e =? e') && enum_by_name ms n | _ => false end
+  | TOpt t' => match x with VNone => true | _ => instb t' x end
+  | TList t' => match x with VList l => forallb (instb t') l | _ => false end
+  | TSet t' => match x with VSet l => forallb (instb t') l && forallb hashable l | _ => false end
+  | TDict k v =>
+      match x with
+      | VDict l => forallb (fun p => instb k (fst p) && instb v (snd p) && hashable (fst p)) l
+      | _ => false
+      end
+  | TData c fs =>
+      match x with
+      | VObj c' vals =>
+          (c =? c')
+          && (fix go (fs : list fdecl) (vals : list (N * pv)) : bool :=
+                match fs, vals with
+                | [], [] => true
+                | (n, k, d, t) :: q, (n', y) :: vq =>
+                    (n =? n')
+                    && match k with
+                       | KTransient => match d with Some l => lit_is l y | None => false end
+                       | _ => instb t y
+                       end
+                    && go q vq
+                | _, _ => false
+                end) fs vals
+      | _ => false
+      end
+  | TSchema => match x with VSchema _ => true | _ => false end
+  | TBatch => match x with VBatch _ => true | _ => false end
+  end.
 
 (* ------------------------------------------------------------------ correspondence entry points *)
 
@@ -700,3 +844,30 @@ Definition outcome (r : res pv) : N * pv := match r with Ok x => (0, x) | Err e 
 
 Definition run_case (cf : cfg) (i : cenv * ty * pv) : N * pv :=
   let '(ce, t, x) := i in outcome (roundtrip cf ce t x).
+
+Definition hyp_case (i : cenv * ty * pv) : bool :=
+  let '(ce, t, x) := i in is_data t && wfb t && cenv_okb ce t && instb t x.
+
+(* (premises hold?, outcome) *)
+Definition run_case_h (cf : cfg) (i : cenv * ty * pv) : bool * (N * pv) := (hyp_case i, run_case cf i).
+Definition outh_eqb (a b : bool * (N * pv)) : bool := Bool.eqb (fst a) (fst b) && out_eqb (snd a) (snd b).
+
+(* ---- stream-state bytes with a symbolic msgpack (VPacked): packb refuses (ValueError) a str that cannot be encoded *)
+Definition packable (v : pv) : bool := match v with VStr s => forallb scalar_cp s | _ => true end.
+Definition sym_pack (r : list (N * pv)) : option pv :=
+  if forallb (fun p => packable (snd p)) r then Some (VPacked r) else None.
+Definition sym_unpack (p : pv) : option pv := match p with VPacked r => Some (VRow r) | _ => None end.
+
+(* state case: (registry, union members ([] = single-state method), class, instance) ->
+   (first byte of the state bytes, outcome of reading them back) *)
+Definition run_state_case (cf : cfg) (have_msgpack : bool) (i : cenv * list ty * ty * pv) : N * (N * pv) :=
+  let '(ce, ts, t, x) := i in
+  let si := match ts with [] => SingleState t | _ => UnionState ts end in
+  match ser_state cf ce have_msgpack sym_pack x si with
+  | Ok b =>
+      let inner := match b with VTagged _ p => p | _ => b end in
+      (match first_byte cf inner with Some k => k | None => 256 end,
+       outcome (de_state cf have_msgpack sym_unpack si b))
+  | Err e => (257, (err_code e, VNone))
+  end.
+Definition state_eqb (a b : N * (N * pv)) : bool := (fst a =? fst b) && out_eqb (snd a) (snd b).
